@@ -516,7 +516,7 @@ class C19(Engine):
 		focus = rng.sample(syms, rng.randint(3, len(syms)))
 		w = {'bind': rng.uniform(0.5, 2), 'unbind': rng.uniform(0.2, 1.5), 'rebind': rng.uniform(0.3, 1.5), 'resolve': rng.uniform(2, 5), 'can': rng.uniform(0, 1),
 			'invoke': rng.uniform(0.5, 3), 'clone': rng.uniform(0.2, 1), 'combine': rng.uniform(0.2, 1.5), 'new': rng.uniform(0.1, 0.8), 'flaky': rng.choice([0, 0, 0.3, 0.8])}
-		plain_focus = [x for x in focus if x not in u.ORIGIN and x in u.BINDABLE]
+		plain_focus = [x for x in focus if x not in u.ORIGIN and x in u.BINDABLE and '.' not in x]  # (nested classes cannot be registered by dotted name)
 
 		def defs() -> dict[str, Any]:
 			out = {}
